@@ -955,7 +955,7 @@ def staticLimit(key, max_value):
             new_inds = list(func(*args, **kwargs))
             for i, ind in enumerate(new_inds):
                 if key(ind) > max_value:
-                    new_inds[i] = random.choice(keep_inds)
+                    new_inds[i] = copy.deepcopy(random.choice(keep_inds))
             return new_inds
 
         return wrapper
